@@ -133,7 +133,10 @@ fn gen_iter_case(rng: &mut Rng, tier: Tier, kind: u8) -> Case {
     let keys: Vec<Vec<u8>> = spec.entries.materialize().into_iter().map(|(k, _)| k).collect();
     let nq = if tier == Tier::Quick { 36 } else { 90 };
     let queries = gen_queries(rng, &keys, nq, kind);
-    Case::Iter(IterCase { spec, env: gen::gen_env(rng, true), queries, v1: false })
+    let env = gen::gen_env(rng, true);
+    // derived, not drawn: one case in five runs its queries two at a time on two reader clones
+    let interleave = crate::rng::mix(env.stream, 0x1e7) % 5 == 0;
+    Case::Iter(IterCase { spec, env, queries, v1: false, interleave })
 }
 
 pub fn gen_c04(rng: &mut Rng, tier: Tier) -> Case {
@@ -153,6 +156,12 @@ pub fn check_iter(prop: &str, case: &Case, st: &mut Stats) -> Verdict {
         return viol(prop, "setup", e.clone());
     }
     let exp = model::expect_iter(c, &entries);
+    if c.interleave {
+        st.c.inc("interleaved_iterator_pairs_cases");
+        if c.env.shared_pos {
+            st.c.inc("interleaved_on_handles_sharing_one_position");
+        }
+    }
     if let Some((_i, oracle, msg)) = model::compare(&r.recs, &exp) {
         return viol(prop, &oracle, msg);
     }
